@@ -671,6 +671,12 @@ func (c *codecV2) DecodeResponse(req *tikvrpc.Request, resp *tikvrpc.Response) (
 		}
 	case tikvrpc.CmdCopStream:
 		return nil, errors.New("streaming coprocessor is not supported yet")
+	case tikvrpc.CmdGetHealthFeedback:
+		r := resp.Resp.(*kvrpcpb.GetHealthFeedbackResponse)
+		r.RegionError, err = c.decodeRegionError(r.RegionError)
+		if err != nil {
+			return nil, err
+		}
 	case tikvrpc.CmdBatchCop, tikvrpc.CmdMPPTask:
 		// There aren't range infos in BatchCop and MPPTask responses.
 	case tikvrpc.CmdMvccGetByKey:
